@@ -645,6 +645,7 @@ class PDFPageInterpreter:
 
     def do_F(self) -> None:
         """Fill path using nonzero winding number rule (obsolete)"""
+        self.do_f()
 
     def do_f_a(self) -> None:
         """Fill path using even-odd rule"""
